@@ -6,6 +6,7 @@ import (
 	"sync"
 	"time"
 
+	"github.com/tokenized/bitcoin_reader/headers"
 	"github.com/tokenized/logger"
 	"github.com/tokenized/pkg/bitcoin"
 	"github.com/tokenized/pkg/wire"
@@ -598,11 +599,12 @@ func (m *NodeManager) synchronizeBlocks(ctx context.Context, interrupt <-chan in
 			select {
 			case <-time.After(time.Second * 10):
 				heightHash, err := m.headers.Hash(ctx, height)
-				if err != nil {
+				if err != nil && errors.Cause(err) != headers.ErrHeightBeyondTip {
 					return errors.Wrap(err, "header hash")
 				}
 
-				if !heightHash.Equal(&hash) {
+				// The block is also orphaned when the most POW chain is now shorter than its height.
+				if err != nil || !heightHash.Equal(&hash) {
 					logger.WarnWithFields(ctx, []logger.Field{
 						logger.Stringer("block_hash", hash),
 						logger.Int("block_height", height),
